@@ -13,9 +13,9 @@ PROPERTY = 'C15'
 
 RULE = ('A formula from the typed grammar and two printings of it: canonical (keywords, ",", fully parenthesised, "out = ...;") versus a '
         'variant drawn from a choice tape: per node an alias (G F U W S O H X Y sX sY ! & | -> <->), ":" as separator, extra parentheses, '
-        'dropped ";" / assertion head, and minimal parentheses computed from the precedence table transcribed from the grammar file '
+        'dropped ";" / assertion head, white space or a comment after the final ";", and minimal parentheses computed from the precedence table transcribed from the grammar file '
         '(binary operators left-associative, prefix operands extend over tighter binary operators). Lanes: discrete offline (all '
-        'operators), discrete online (past operators), unless[a,b] versus its documented expansion, LTL front end on untimed formulas '
+        'operators), discrete online (past operators), unless[a,b] versus its documented expansion, untimed unless versus always phi or phi until psi on both front ends, LTL front end on untimed formulas '
         '(offline and pastified online) versus the STL front end. Lane embedded: the variant is the requirement of a text that declares its variables itself (input/output float v, with or without an initialising literal or expression, one declaration per line or all on one line) instead of through the API. Oracle: identical results (a variant that raises where the canonical '
         'text evaluates is a difference). Non-trivial = the variant differs from the canonical text in >= 2 token kinds or parentheses '
         'were dropped, and the result is not constant; distinct = distinct (canonical text, variant text, trace) digests.')
@@ -254,6 +254,43 @@ def check_unless(case):
     return PASS(True, labels)
 
 
+@st.composite
+def unless_untimed_cases(draw, tier):
+    """phi unless psi without interval: always phi or phi until psi; STL front end and LTL front end (offline)."""
+    prof = UNTIMED.copy(max_depth=3)
+    nv = draw(st.integers(1, 2))
+    vs = list(F.VAR_POOL[:nv])
+    p, _ = draw(F.formulas(prof, variables=vs))
+    q, _ = draw(F.formulas(prof, variables=vs))
+    n = draw(F.trace_lengths(8))
+    return {'p': p, 'q': q, 'vars': vs, 'trace': draw(F.traces(vs, n=n)), 'alias': draw(st.booleans()), 'front': draw(st.sampled_from(['stl', 'ltl']))}
+
+
+def check_unless_untimed(case):
+    p = from_json(case['p'])
+    q = from_json(case['q'])
+    vs = list(case['vars'])
+    tr = {v: [float(x) for x in case['trace'][v]] for v in vs}
+    n = len(tr[vs[0]])
+    rhs = ('bin', 'or', ('un', 'always', p), ('bin', 'until', p, q))
+    labels = ['kind:unless-untimed', 'front:' + case['front']] + feature_labels(rhs, n)
+    used = F.fvars(rhs)
+    if not used:
+        return DISCARD('no-variable', labels)
+    feed = [v for v in vs if v in used]
+    w = {v: tr[v] for v in feed}
+    tl = 'out = (%s) %s (%s);' % (show(p), 'W' if case['alias'] else 'unless', show(q))
+    trr = 'out = ' + show(rhs) + ';'
+    if case['front'] == 'ltl':
+        o_r, o_l = run_ltl(trr, feed, w, False), run_ltl(tl, feed, w, False)
+    else:
+        o_r, o_l = run_kind('dt_off', trr, feed, w), run_kind('dt_off', tl, feed, w)
+    bad = compare(labels, trr, tl, o_r, o_l, w, 'unless-untimed-expansion (%s front end)' % case['front'])
+    if bad:
+        return bad
+    return PASS(len(set(o_r[1])) > 1, labels)
+
+
 def candidates(case):
     for c in std_candidates(case):
         yield c
@@ -287,6 +324,7 @@ LANES = [
     Lane('dt_off', lambda tier: cases(tier, 'dt_off'), check, 4000, 60000, candidates),
     Lane('dt_on', lambda tier: cases(tier, 'dt_on'), check, 2000, 30000, candidates),
     Lane('unless', lambda tier: unless_cases(tier), check_unless, 1000, 15000, cand_unless),
+    Lane('unless_untimed', lambda tier: unless_untimed_cases(tier), check_unless_untimed, 1000, 10000, cand_unless),
     Lane('ltl_off', lambda tier: cases(tier, 'ltl_off'), check, 3000, 30000, std_candidates),
     Lane('ltl_on', lambda tier: cases(tier, 'ltl_on'), check, 5000, 50000, std_candidates),
 ]
